@@ -616,6 +616,86 @@ def hand_written(chk: Check, stats: Dict[str, int]) -> List[Tuple[str, Optional[
     return tok_problems
 
 
+# ---------------------------------------------------------------------------------------------------------------------
+# V: viral propagation rules for attributes whose names differ only in case (different datasets, different rules)
+# ---------------------------------------------------------------------------------------------------------------------
+VP_ROWS = [(1, 1, 10.0, 3), (1, 2, 20.0, 7), (2, 1, 30.0, 5), (2, 2, 40.0, 2)]
+
+
+def _viral_job(job: Tuple[str, str, str, str, bool]) -> Dict[str, Any]:
+    """`define viral propagation` for At_1 (fn_a) and at_1 (fn_b) in the given order; DS_r1 <- sum(DS_1 group by Id_1),
+    DS_r2 <- sum(DS_2 group by Id_1); the viral attribute of each result must follow ITS OWN rule."""
+    import pandas as pd
+    name_a, name_b, fn_a, fn_b, a_first = job
+    A = P.A()
+    kw = P.KW
+
+    def vp(name: str, target: str, fn: str) -> Any:
+        return A.ViralPropagationDef(name=name, signature_type="variable", target=target, enumerated_clauses=[],
+                                     aggregate_clause=A.AggregateVpClause(function=fn, **kw), default_value=None, **kw)
+
+    def agg(result: str, operand: str) -> Any:
+        return A.PersistentAssignment(left=A.VarID(value=result, **kw), op="<-", right=A.Aggregation(
+            op="sum", operand=A.VarID(value=operand, **kw), grouping_op="group by",
+            grouping=[A.Identifier(value="Id_1", kind="ComponentID", **kw)], having_clause=None, **kw), **kw)
+
+    def struct(ds: str, att: str) -> Dict[str, Any]:
+        return {"name": ds, "DataStructure": [
+            {"name": "Id_1", "type": "Integer", "role": "Identifier", "nullable": False},
+            {"name": "Id_2", "type": "Integer", "role": "Identifier", "nullable": False},
+            {"name": "Me_1", "type": "Number", "role": "Measure", "nullable": True},
+            {"name": att, "type": "Integer", "role": "Viral Attribute", "nullable": True}]}
+    defs = [vp("vp_a", name_a, fn_a), vp("vp_b", name_b, fn_b)]
+    if not a_first:
+        defs.reverse()
+    ast_ = A.Start(children=defs + [agg("DS_r1", "DS_1"), agg("DS_r2", "DS_2")], **kw)
+    text = "; ".join(f"define viral propagation {d.name} (variable {d.target}) is aggregate {d.aggregate_clause.function}" for d in defs) + \
+           "; DS_r1 <- sum(DS_1 group by Id_1); DS_r2 <- sum(DS_2 group by Id_1)"
+    data = {"DS_1": pd.DataFrame(VP_ROWS, columns=["Id_1", "Id_2", "Me_1", name_a]),
+            "DS_2": pd.DataFrame(VP_ROWS, columns=["Id_1", "Id_2", "Me_1", name_b])}
+    del CAPTURED[:]
+    try:
+        res = P.api_from_ast("run")(ast_, P.structures([struct("DS_1", name_a), struct("DS_2", name_b)]), data)
+    except Exception as e:  # noqa: BLE001
+        return {"text": text, "problem": f"run() raised {type(e).__name__}: {str(e)[:160]}", "man": "rejected"}
+    f = {"max": max, "min": min}
+    want = {}
+    for (rname, att, fn) in (("DS_r1", name_a, fn_a), ("DS_r2", name_b, fn_b)):
+        want[(rname, att)] = [f[fn](r[3] for r in VP_ROWS if r[0] == g) for g in (1, 2)]
+    for (rname, att), w in want.items():
+        df = res[rname].data
+        if df is None or att not in df.columns:
+            return {"text": text, "problem": f"{rname} has no column {att} (columns {None if df is None else list(df.columns)})", "man": "column-lost"}
+        got = [int(v) for v in df.sort_values("Id_1")[att].tolist()]
+        if got != w:
+            sql = next((q for n, q, _p in (CAPTURED[-1] if CAPTURED else []) if n == rname), "")
+            return {"text": text, "man": "wrong-values",
+                    "problem": f"{rname}.{att} = {got}, its own rule gives {w}; emitted SQL: {sql[:160]}"}
+    return {"text": text, "problem": None}
+
+
+def viral_rules(chk: Check, stats: Dict[str, int]) -> None:
+    jobs = [(a, b, fa, fb, first) for a, b in (("At_1", "at_1"), ("AT_x", "at_X")) for fa, fb in (("max", "min"), ("min", "max"))
+            for first in (True, False)]
+    results = pool_map(_viral_job, jobs)
+    stats["programs"] += len(jobs)
+    stats["runs"] += len(jobs)
+    sit = "apart::viral-propagation-rules-for-case-variant-attributes"
+    ob = chk.ob(f"{RUN}::{sit}", RUN, f"[{sit}] viral attributes At_1 (dataset DS_1) and at_1 (dataset DS_2) with different "
+                f"`define viral propagation` rules: each aggregation result follows the rule defined for ITS attribute, in both "
+                f"definition orders ({len(jobs)} programs)", bounded=True)
+    ob.backend = "bounded-real-engine"
+    bad = [r for r in results if r["problem"]]
+    if bad:
+        r = bad[0]
+        ob.status, ob.detail = REFUTED, f"{r['text']}  ==>  {r['problem']}"
+        ob.witness = {"program": r["text"], "problem": r["problem"], "rows(Id_1, Id_2, Me_1, attribute)": VP_ROWS}
+        ob.replayed, ob.replay_detail = True, "observed on the real engine (extracted API.run, real DuckDB): " + r["problem"]
+        ob.finding_key = f"{sit}::{r['man']}"
+    else:
+        ob.status, ob.detail = BOUNDED_OK, f"{len(jobs)} programs"
+
+
 def run(chk: Check) -> None:
     core.boot(full=True)
     install_capture()
@@ -626,6 +706,7 @@ def run(chk: Check) -> None:
     try:
         tok = metamorphic(chk, rng, thorough, stats)
         tok += hand_written(chk, stats)
+        viral_rules(chk, stats)
     finally:
         close_pool()
     ob = chk.ob(f"{TRANSPILE}::structure-names-emitted-quoted-and-verbatim", TRANSPILE,
